@@ -1095,7 +1095,7 @@ class Gen:
             if children_of(o):
                 return None
         self.exclude = self.tree_of(o)
-        return {"op": "replace", "n": ref, "ch": self.gen_changes(o), "out": self.out(), "keep_stale": r.random() < 0.3}
+        return {"op": "replace", "n": ref, "ch": self.gen_changes(o), "out": self.out(), "keep_stale": r.random() < 0.45}
 
     def g_replace_with(self) -> dict[str, Any] | None:
         r = self.r("rw")
@@ -1282,6 +1282,21 @@ class Gen:
             return None
         top["create_detached"] = True
         return {"act": "replace_with", "n": ref, "new": top, "bad": "replace_with_nested_collision_clean_sibling"}
+
+    def rj_replace_with_stale_receiver(self) -> dict[str, Any] | None:
+        """replace_with on a superseded (detached) object whose id is held by its live successor, the replacement
+        being an attached root (or a fresh detached tree)."""
+        r = self.r("rj17")
+        stale = [h for h, o in self.w.handles.items() if self.w.is_retired(o) and o.detached and AwareASTNode.get_any(o.id) is not None and AwareASTNode.get_any(o.id) is not o]
+        if not stale:
+            return None
+        h = r.choice(stale)
+        fr = self.free_ref(detached=False)
+        if fr is not None and r.random() < 0.7 and not any(x is self.w.handles[h] for x in walk(self.w.node_at(fr))):
+            return {"act": "replace_with", "n": {"h": h, "path": []}, "new": {"ref": fr}, "bad": "replace_with_stale_receiver_attached_root"}
+        new = self.fresh_children(1)[0]
+        new["create_detached"] = True
+        return {"act": "replace_with", "n": {"h": h, "path": []}, "new": new, "bad": "replace_with_stale_receiver_detached_new"}
 
     def rj_ctor_duplicate_children(self) -> dict[str, Any] | None:
         r = self.r("rj2")
@@ -1574,6 +1589,7 @@ def spec_of(o: Any) -> dict[str, Any]:
 
 
 REJECT_KINDS = [
+    "replace_with_stale_receiver",
     "transform_rule_uses_library",
     "ctor_nested_collision_clean_sibling",
     "ctor_parent_collision",
